@@ -4,19 +4,20 @@
 // nothing inside /repo is instrumented.
 //
 // Every wrapper method that matters is a "point". At a point the wrapper
-//   1. finds out who is calling (role = handler goroutine, worker goroutine, or other; fn = the
-//      innermost masswallet function on the stack) by walking the call stack,
-//   2. appends an Event to the trace (when tracing),
-//   3. blocks the caller if a Gate is armed for (role, fn, point) until the harness releases it,
-//   4. (read transactions) numbers the reads of the transaction and calls OnRead before each.
+//  1. finds out who is calling (role = handler goroutine, worker goroutine, or other; fn = the
+//     innermost masswallet function on the stack) by walking the call stack,
+//  2. appends an Event to the trace (when tracing),
+//  3. blocks the caller if a Gate is armed for (role, fn, point) until the harness releases it,
+//  4. (read transactions) numbers the reads of the transaction and calls OnRead before each.
 //
 // Points:
-//   begin     before the driver's BeginTx (the driver's write lock is NOT yet held)
-//   commit    after the driver's Commit returned nil (write lock released)
-//   abort     after a write transaction was rolled back
-//   view      before the driver's BeginReadTx
-//   get put del iter prefix   bucket operations, before the driver is called
-//   close     DB.Close
+//
+//	begin     before the driver's BeginTx (the driver's write lock is NOT yet held)
+//	commit    after the driver's Commit returned nil (write lock released)
+//	abort     after a write transaction was rolled back
+//	view      before the driver's BeginReadTx
+//	get put del iter prefix   bucket operations, before the driver is called
+//	close     DB.Close
 package sched
 
 import (
@@ -46,8 +47,9 @@ type Event struct {
 	Role  Role
 	Fn    string // innermost function of package masswallet on the stack (without the package path)
 	Point string
-	Tx    int // transaction number (0 for DB-level points before the transaction exists)
-	K     int // read number inside a read transaction (point get/iter/prefix), else 0
+	Tx    int    // transaction number (0 for DB-level points before the transaction exists)
+	K     int    // read number inside a read transaction (point get/iter/prefix), else 0
+	Bkt   string // bucket name (reads of a read transaction only)
 }
 
 func (e Event) String() string {
@@ -78,13 +80,71 @@ type Ctl struct {
 	gates   []*Gate
 	opGates int32 // number of armed gates on bucket-operation points
 	// OnRead is called (without the controller lock) before read number k of read transaction tx.
-	OnRead func(ev Event, key []byte)
-	reads  int32 // 1 when OnRead is set
+	OnRead  func(ev Event, key []byte)
+	reads   int32 // 1 when OnRead is set
 	Commits int
 	Closed  bool
+	// HoldHK: every passage of the handler or the worker goroutine through begin / commit / abort
+	// waits until the harness grants it; the event is recorded when granted.
+	HoldHK  bool
+	pending map[Role]*pend
 }
 
-func New() *Ctl { return &Ctl{Tracing: true} }
+type pend struct {
+	ev Event
+	ch chan struct{}
+}
+
+// SetHold switches the hold-everything mode on; switching it off grants whatever is pending.
+func (c *Ctl) SetHold(on bool) {
+	c.mu.Lock()
+	c.HoldHK = on
+	var rel []*pend
+	if !on {
+		for r, p := range c.pending {
+			rel = append(rel, p)
+			delete(c.pending, r)
+		}
+	}
+	for _, p := range rel {
+		c.seq++
+		p.ev.Seq = c.seq
+		c.events = append(c.events, p.ev)
+	}
+	c.mu.Unlock()
+	for _, p := range rel {
+		close(p.ch)
+	}
+}
+
+// Pending returns the event the goroutine of that role is held at, if any.
+func (c *Ctl) Pending(r Role) (Event, bool) {
+	c.mu.Lock()
+	defer c.mu.Unlock()
+	if p, ok := c.pending[r]; ok {
+		return p.ev, true
+	}
+	return Event{}, false
+}
+
+// Grant records the pending event of that role now and lets the goroutine go on.
+func (c *Ctl) Grant(r Role) bool {
+	c.mu.Lock()
+	p, ok := c.pending[r]
+	if ok {
+		delete(c.pending, r)
+		c.seq++
+		p.ev.Seq = c.seq
+		c.events = append(c.events, p.ev)
+	}
+	c.mu.Unlock()
+	if ok {
+		close(p.ch)
+	}
+	return ok
+}
+
+func New() *Ctl { return &Ctl{Tracing: true, pending: map[Role]*pend{}} }
 
 func (c *Ctl) Wrap(db mwdb.DB) mwdb.DB { return &wdb{c: c, in: db} }
 
@@ -158,6 +218,9 @@ func (g *Gate) Release() {
 	g.c.mu.Unlock()
 }
 
+// IsClosed reports whether DB.Close has returned.
+func (c *Ctl) IsClosed() bool { c.mu.Lock(); defer c.mu.Unlock(); return c.Closed }
+
 // Events returns a copy of the trace.
 func (c *Ctl) Events() []Event {
 	c.mu.Lock()
@@ -217,6 +280,16 @@ func (c *Ctl) at(point string, tx, k int, cheap bool) Event {
 	role, fn := who()
 	ev := Event{Role: role, Fn: fn, Point: point, Tx: tx, K: k}
 	c.mu.Lock()
+	if c.HoldHK && (role == Handler || role == Worker) && (point == "begin" || point == "commit" || point == "abort") {
+		if point == "commit" {
+			c.Commits++
+		}
+		p := &pend{ev: ev, ch: make(chan struct{})}
+		c.pending[role] = p
+		c.mu.Unlock()
+		<-p.ch
+		return ev
+	}
 	c.seq++
 	ev.Seq = c.seq
 	if c.Tracing && (!cheap || c.OpTrace) {
@@ -366,7 +439,7 @@ func (b *wbucket) read(point string, key []byte) {
 	if b.rt != nil && atomic.LoadInt32(&b.c.reads) == 1 {
 		b.rt.reads++
 		role, fn := who2()
-		ev := Event{Role: role, Fn: fn, Point: point, Tx: b.n, K: b.rt.reads}
+		ev := Event{Role: role, Fn: fn, Point: point, Tx: b.n, K: b.rt.reads, Bkt: b.in.GetBucketMeta().Name()}
 		b.c.mu.Lock()
 		f := b.c.OnRead
 		b.c.mu.Unlock()
@@ -387,7 +460,9 @@ func (b *wbucket) NewBucket(name string) (mwdb.Bucket, error) {
 	}
 	return wrapBucket(b.c, nb, b.rt, b.n), nil
 }
-func (b *wbucket) Bucket(name string) mwdb.Bucket { return wrapBucket(b.c, b.in.Bucket(name), b.rt, b.n) }
+func (b *wbucket) Bucket(name string) mwdb.Bucket {
+	return wrapBucket(b.c, b.in.Bucket(name), b.rt, b.n)
+}
 func (b *wbucket) BucketNames() ([]string, error) { return b.in.BucketNames() }
 func (b *wbucket) DeleteBucket(name string) error { return b.in.DeleteBucket(name) }
 func (b *wbucket) Put(key, value []byte) error {
